@@ -2129,7 +2129,7 @@ def r7_announced_format(ctx):
             base, ix = C._arg(d[2][0]), C._arg(d[2][1])
             sp = C._slice_parts(ix)
             pb = C.fn_parts(base)
-            if sp is not None and sp[0] is None and sp[1] is not None and sp[2] is None and pb is not None and pb[0] == "each":
+            if sp is not None and (sp[0] is None or sp[0].is_zero()) and sp[1] is not None and sp[2] is None and pb is not None and pb[0] == "each":
                 cuts.append(sp[1])
     ok = len(cuts) == 1 and C.same(cuts[0], pl * nl, whole_values=False)
     ctx.check(ok, "_loadop4_ascii: the used part of a data line is perline * field width characters", fn,
